@@ -1,30 +1,63 @@
 package main
 
-// c05Flow: a small interprocedural powerset dataflow over the functions of
-// one package, path-sensitive on up to two tracked boolean SSA values per
-// function (a load of a flag, or the boolean result of a same-package helper).
+// c05Flow: an interprocedural powerset dataflow over the functions of one
+// package, path-sensitive on a few tracked booleans per function.
 //
 // A state is (g, l): g < G is the rule's "global" abstract state, carried
-// across calls (callee summaries are relations entry g -> exit g, return
-// truth); l is the truth (unknown/true/false) of the function's tracked
-// booleans. A branch on a tracked boolean prunes the states that disagree, so
+// across calls (callee summaries are relations entry g -> exit g, truth of the
+// boolean result); l holds the truth (unknown/true/false) of
 //
-//	was := c.running; if !was { c.running = true }; unlock; if was { return }; start()
+//   - digit 0 (if Cells): one SHARED CELL — a boolean local captured by a
+//     closure, through which a callback reports to its caller
+//     (`var already bool; c.locked(func(){ if c.running { already = true; return }; ... }); if already { return }`);
+//     it is carried into and out of callees that use the same cell;
+//   - the function's tracked booleans: loads of a flag, boolean results of
+//     same-package helpers (also one component of a result tuple), flag
+//     variables (boolean phis, assigned on the incoming edge), nil tests of phis.
 //
-// reaches start() only with the states that went through the store.
-// Entry states of a function are the union over its static call sites
-// (context-insensitive) and over the roots given to Run.
+// A branch on a tracked boolean prunes the states that disagree. Calls are
+// followed through static callees, closures bound to parameters (summarised
+// per binding), func-typed fields and callbacks of sort/slices. State sets are
+// 256-bit sets, so G*3^digits <= 256.
 
 import (
 	"fmt"
 	"go/constant"
 	"go/token"
 	"go/types"
+	"strings"
 
 	"golang.org/x/tools/go/ssa"
 )
 
-type c05Exit struct{ g, rt int }
+const c05Cap = 256
+
+type c05Bits [c05Cap / 64]uint64
+
+func (b c05Bits) has(i int) bool { return b[i/64]&(1<<uint(i%64)) != 0 }
+func (b *c05Bits) set(i int)     { b[i/64] |= 1 << uint(i%64) }
+func (b c05Bits) isZero() bool {
+	for _, w := range b {
+		if w != 0 {
+			return false
+		}
+	}
+	return true
+}
+func (b *c05Bits) or(o c05Bits) {
+	for i := range b {
+		b[i] |= o[i]
+	}
+}
+
+// c05Exit: one way a function returns: global state, truth of its boolean
+// result, shared-cell digit, and the constants it returns ("i=val;" per
+// constant result i) so that a caller comparing an enum-like result stays
+// correlated with what the helper did.
+type c05Exit struct {
+	g, rt, cd int
+	rc        string
+}
 
 type c05Flow struct {
 	a *c05
@@ -32,9 +65,10 @@ type c05Flow struct {
 	// Step: effect of an instruction on g. For calls to same-package functions
 	// the summary is applied unless Step returns handled=true.
 	Step func(in ssa.Instruction, g int) (g2 int, handled bool)
-	// Cond: a tracked boolean v was observed with truth tv on a branch of ifi.
+	// Cond: a tracked boolean v was observed with truth tv at instruction at.
 	Cond func(at ssa.Instruction, v ssa.Value, tv bool, g int) int
-	// Tracked: is v (a load or a call result of type bool) worth tracking?
+	// Tracked: is v (a load, a phi, ...) worth tracking? Boolean results of
+	// same-package calls are always tracked.
 	Tracked func(v ssa.Value) bool
 	// Exit: rewrite g at the returns of fn (optional).
 	Exit func(fn *ssa.Function, g int) int
@@ -44,51 +78,59 @@ type c05Flow struct {
 	Fresh int
 	// NoDefaultRoots: only the roots given to Run start the propagation.
 	NoDefaultRoots bool
-	// K: number of tracked booleans per function (1 or 2, default 2); G*3^K <= 64.
+	// K: number of tracked booleans per function (default: as many as fit, <= 3).
 	K int
-	// EdgeG: effect of taking the CFG edge from->to on g (e.g. an assignment
-	// expressed by a phi edge). Optional.
+	// Cells: track one shared boolean cell per calling context (digit 0).
+	Cells bool
+	// EdgeG: effect of taking the CFG edge from->to on g. Optional.
 	EdgeG func(from, to *ssa.BasicBlock, g int) int
 
 	funcs   map[*ssa.Function]bool
-	sum     map[*ssa.Function]map[int][]c05Exit
-	active  map[*ssa.Function]map[int]bool
+	sum     map[string][]c05Exit
+	active  map[string]bool
 	entry   map[*ssa.Function]uint64
-	at      map[ssa.Instruction]uint64
-	atRepl  map[ssa.Instruction]uint64 // state when a deferred call is replayed
+	at      map[ssa.Instruction]c05Bits
 	tracked map[*ssa.Function][]ssa.Value
-	sumB    map[string][]c05Exit
-	activeB map[string]bool
+	cells   map[*ssa.Function]*ssa.Alloc
 	// Imprecise: functions with more tracked booleans than the engine can follow.
 	Imprecise map[*ssa.Function]bool
 }
 
-// kmax: number of tracked booleans per function: K if set, else the largest
-// k <= 3 with G*3^k <= 64.
+func (f *c05Flow) cellDigits() int {
+	if f.Cells {
+		return 1
+	}
+	return 0
+}
+
+// kmax: number of tracked (local) booleans per function.
 func (f *c05Flow) kmax() int {
 	if f.K > 0 {
 		return f.K
 	}
 	k, l := 0, 1
-	for k < 3 && f.G*l*3 <= 64 {
+	for i := 0; i < f.cellDigits(); i++ {
+		l *= 3
+	}
+	for k < 3 && f.G*l*3 <= c05Cap {
 		k++
 		l *= 3
 	}
 	return k
 }
 
-// L: number of local truth assignments (3^kmax).
+// L: number of local truth assignments.
 func (f *c05Flow) L() int {
 	l := 1
-	for i := 0; i < f.kmax(); i++ {
+	for i := 0; i < f.kmax()+f.cellDigits(); i++ {
 		l *= 3
 	}
 	return l
 }
 
 // c05CanonBool: a boolean phi all of whose incoming values (other than itself)
-// are one and the same value is that value (the copy of a flag a loop header
-// makes for a path that does not change it).
+// are one and the same phi is that phi (the copy of a flag a loop header makes
+// for a path that does not change it).
 func c05CanonBool(v ssa.Value) ssa.Value {
 	for i := 0; i < 6; i++ {
 		p, ok := v.(*ssa.Phi)
@@ -126,16 +168,17 @@ func (f *c05Flow) init() {
 	for _, fn := range f.a.funcs {
 		f.funcs[fn] = true
 	}
-	f.sum = map[*ssa.Function]map[int][]c05Exit{}
-	f.active = map[*ssa.Function]map[int]bool{}
+	f.sum = map[string][]c05Exit{}
+	f.active = map[string]bool{}
 	f.entry = map[*ssa.Function]uint64{}
-	f.at = map[ssa.Instruction]uint64{}
-	f.atRepl = map[ssa.Instruction]uint64{}
+	f.at = map[ssa.Instruction]c05Bits{}
 	f.tracked = map[*ssa.Function][]ssa.Value{}
+	f.cells = map[*ssa.Function]*ssa.Alloc{}
 	f.Imprecise = map[*ssa.Function]bool{}
 }
 
-// condValue strips !, == true/false and returns the underlying value and polarity.
+// c05CondValue strips !, == true/false, and nil comparisons, and returns the
+// underlying value and polarity (for X != nil: the fact "X is non-nil").
 func c05CondValue(cond ssa.Value) (ssa.Value, bool) {
 	pol := true
 	for i := 0; i < 8; i++ {
@@ -152,7 +195,6 @@ func c05CondValue(cond ssa.Value) (ssa.Value, bool) {
 					v, k = k, v
 				}
 				if kc, ok := k.(*ssa.Const); ok && kc.IsNil() {
-					// X != nil: the tracked fact is "X is non-nil"
 					if x.Op == token.EQL {
 						pol = !pol
 					}
@@ -176,17 +218,177 @@ func c05CondValue(cond ssa.Value) (ssa.Value, bool) {
 	return cond, pol
 }
 
+// c05BoolCellOf: if addr denotes a boolean local variable cell (directly or as
+// a captured variable), that cell.
+func c05BoolCellOf(addr ssa.Value) *ssa.Alloc {
+	if fv, ok := addr.(*ssa.FreeVar); ok {
+		addr = resolveFreeVar(fv)
+	}
+	al, ok := addr.(*ssa.Alloc)
+	if !ok {
+		return nil
+	}
+	pt, ok := al.Type().Underlying().(*types.Pointer)
+	if !ok || !c05IsBool(pt.Elem()) {
+		return nil
+	}
+	return al
+}
+
+// c05CellLoad: v is a load of a boolean cell.
+func c05CellLoad(v ssa.Value) *ssa.Alloc {
+	u, ok := v.(*ssa.UnOp)
+	if !ok || u.Op != token.MUL {
+		return nil
+	}
+	return c05BoolCellOf(u.X)
+}
+
+// cellOf: the shared cell of fn's calling context: a boolean variable captured
+// by a closure that fn reads in a condition or assigns a constant; for a
+// callback helper without one, that of the callback it is bound to.
+func (f *c05Flow) cellOf(fn *ssa.Function, bind map[*ssa.Parameter]*ssa.Function) *ssa.Alloc {
+	if !f.Cells {
+		return nil
+	}
+	c, done := f.cells[fn]
+	if !done {
+		var cands []*ssa.Alloc
+		add := func(al *ssa.Alloc) {
+			if al == nil {
+				return
+			}
+			captured := false
+			for _, r := range refs(al) {
+				if _, ok := r.(*ssa.MakeClosure); ok {
+					captured = true
+				}
+			}
+			if !captured {
+				return
+			}
+			for _, x := range cands {
+				if x == al {
+					return
+				}
+			}
+			cands = append(cands, al)
+		}
+		allInstrs(fn, func(in ssa.Instruction) {
+			switch x := in.(type) {
+			case *ssa.Store:
+				if _, isK := x.Val.(*ssa.Const); isK {
+					add(c05BoolCellOf(x.Addr))
+				}
+			case *ssa.If:
+				for _, at := range append([]c05Atom{{x.Cond, true}}, c05ExpandCond(x.Cond, true, 0)...) {
+					v, _ := c05CondValue(at.v)
+					add(c05CellLoad(v))
+				}
+			}
+		})
+		if len(cands) > 0 {
+			c = cands[0]
+		}
+		if len(cands) > 1 {
+			f.Imprecise[fn] = true
+		}
+		f.cells[fn] = c
+	}
+	if c == nil {
+		for _, cb := range bind {
+			if cc := f.cellOf(cb, nil); cc != nil {
+				return cc
+			}
+		}
+	}
+	return c
+}
+
+func (f *c05Flow) engineTracked(v ssa.Value) bool {
+	switch x := v.(type) {
+	case *ssa.Call:
+		if !c05IsBool(x.Type()) {
+			return false
+		}
+		for _, h := range f.a.calleesOf(x) {
+			if f.funcs[h] {
+				return true
+			}
+		}
+	case *ssa.Extract:
+		if !c05IsBool(x.Type()) {
+			return false
+		}
+		if call, ok := x.Tuple.(*ssa.Call); ok {
+			for _, h := range f.a.calleesOf(call) {
+				if f.funcs[h] {
+					return true
+				}
+			}
+		}
+	case *ssa.BinOp:
+		if _, _, ok := f.resultCompare(x); ok {
+			return true
+		}
+	}
+	return f.Tracked != nil && f.Tracked(v)
+}
+
+// resultCompare: b compares (==, !=) a result of a same-package call with a
+// constant: the call, the result index.
+func (f *c05Flow) resultCompare(b *ssa.BinOp) (*ssa.Call, int, bool) {
+	if b.Op != token.EQL && b.Op != token.NEQ {
+		return nil, 0, false
+	}
+	v, k := b.X, b.Y
+	if _, isC := v.(*ssa.Const); isC {
+		v, k = k, v
+	}
+	kc, ok := k.(*ssa.Const)
+	if !ok || kc.Value == nil {
+		return nil, 0, false
+	}
+	var call *ssa.Call
+	idx := 0
+	switch x := v.(type) {
+	case *ssa.Call:
+		call = x
+	case *ssa.Extract:
+		call, _ = x.Tuple.(*ssa.Call)
+		idx = x.Index
+	}
+	if call == nil {
+		return nil, 0, false
+	}
+	for _, h := range f.a.calleesOf(call) {
+		if f.funcs[h] {
+			return call, idx, true
+		}
+	}
+	return nil, 0, false
+}
+
+func c05CompareConst(b *ssa.BinOp) string {
+	if kc, ok := b.Y.(*ssa.Const); ok && kc.Value != nil {
+		return kc.Value.ExactString()
+	}
+	if kc, ok := b.X.(*ssa.Const); ok && kc.Value != nil {
+		return kc.Value.ExactString()
+	}
+	return ""
+}
+
 func (f *c05Flow) trackedOf(fn *ssa.Function) []ssa.Value {
 	if t, ok := f.tracked[fn]; ok {
 		return t
 	}
 	var out []ssa.Value
 	seen := map[ssa.Value]bool{}
-	// only booleans that actually decide a branch or are returned
 	consider := func(v ssa.Value) {
 		v, _ = c05CondValue(v)
 		v = c05CanonBool(v)
-		if seen[v] || f.Tracked == nil || !f.Tracked(v) {
+		if seen[v] || c05CellLoad(v) != nil || !f.engineTracked(v) {
 			return
 		}
 		seen[v] = true
@@ -200,10 +402,8 @@ func (f *c05Flow) trackedOf(fn *ssa.Function) []ssa.Value {
 				consider(at.v)
 			}
 		case *ssa.Return:
-			if len(x.Results) == 1 {
-				if b, ok := x.Results[0].Type().Underlying().(*types.Basic); ok && b.Kind() == types.Bool {
-					consider(c05ResolveLocal(x.Results[0]))
-				}
+			if k := c05BoolResult(fn); k >= 0 && k < len(x.Results) {
+				consider(c05ResolveLocal(x.Results[k]))
 			}
 		}
 	})
@@ -247,10 +447,9 @@ func (f *c05Flow) trackedOf(fn *ssa.Function) []ssa.Value {
 		}
 	}
 	if len(flags) <= maxK {
-		// expression phis beyond the budget are not a loss of precision
 		out = append(flags, exprs...)
 		if len(out) > maxK {
-			out = out[:maxK]
+			out = out[:maxK] // expression phis beyond the budget are not a loss of precision
 		}
 	} else {
 		out = append(flags, exprs...)
@@ -261,6 +460,21 @@ func (f *c05Flow) trackedOf(fn *ssa.Function) []ssa.Value {
 	}
 	f.tracked[fn] = out
 	return out
+}
+
+// c05BoolResult: index of the single boolean result of fn, or -1.
+func c05BoolResult(fn *ssa.Function) int {
+	res := fn.Signature.Results()
+	k := -1
+	for i := 0; i < res.Len(); i++ {
+		if c05IsBool(res.At(i).Type()) {
+			if k >= 0 {
+				return -1
+			}
+			k = i
+		}
+	}
+	return k
 }
 
 func c05Digit(l, k int) int {
@@ -278,280 +492,494 @@ func c05SetDigit(l, k, d int) int {
 	return l - ((l/p)%3)*p + d*p
 }
 
-// runFn runs the intraprocedural flow of fn from the given entry global states.
-// record: store per-instruction states and propagate entries to callees.
-func (f *c05Flow) runFn(fn *ssa.Function, entryG uint64, record bool, contrib func(h *ssa.Function, g int), bind map[*ssa.Parameter]*ssa.Function) []c05Exit {
+// c05MiniFlow: forward may-dataflow of c05Bits over fn's blocks with deferred
+// calls replayed at rundefers (the c05Bits counterpart of FlagFlow).
+type c05MiniFlow struct {
+	fn        *ssa.Function
+	entry     c05Bits
+	transfer  func(in ssa.Instruction, st c05Bits) c05Bits
+	edge      func(from, to *ssa.BasicBlock, st c05Bits) c05Bits
+	replaying bool
+	before    map[ssa.Instruction]c05Bits
+}
+
+func (m *c05MiniFlow) run() {
+	fn := m.fn
+	n := len(fn.Blocks)
+	in := make([]c05Bits, n)
+	outs := make([]c05Bits, n)
+	visited := make([]bool, n)
+	computed := make([]bool, n)
+	m.before = map[ssa.Instruction]c05Bits{}
+	if n == 0 {
+		return
+	}
+	var defers []*ssa.Defer
+	allInstrs(fn, func(x ssa.Instruction) {
+		if d, ok := x.(*ssa.Defer); ok {
+			defers = append(defers, d)
+		}
+	})
+	reach := map[*ssa.BasicBlock]map[*ssa.BasicBlock]bool{}
+	in[0] = m.entry
+	visited[0] = true
+	work := []int{0}
+	for len(work) > 0 {
+		bi := work[0]
+		work = work[1:]
+		b := fn.Blocks[bi]
+		st := in[bi]
+		for _, instr := range b.Instrs {
+			m.before[instr] = st
+			st = m.transfer(instr, st)
+			if _, ok := instr.(*ssa.RunDefers); ok {
+				for i := len(defers) - 1; i >= 0; i-- {
+					d := defers[i]
+					if d.Block() != b {
+						r := reach[d.Block()]
+						if r == nil {
+							r = reachableFrom(d.Block(), nil)
+							reach[d.Block()] = r
+						}
+						if !r[b] {
+							continue
+						}
+					}
+					m.replaying = true
+					st = m.transfer(d, st)
+					m.replaying = false
+				}
+			}
+		}
+		if computed[bi] && st == outs[bi] {
+			continue
+		}
+		computed[bi] = true
+		outs[bi] = st
+		for _, s := range b.Succs {
+			es := m.edge(b, s, st)
+			ns := es
+			if visited[s.Index] {
+				ns = in[s.Index]
+				ns.or(es)
+			}
+			if !visited[s.Index] || ns != in[s.Index] || !computed[s.Index] {
+				visited[s.Index] = true
+				in[s.Index] = ns
+				work = append(work, s.Index)
+			}
+		}
+	}
+}
+
+// runFn runs the intraprocedural flow of fn from the given entry global states
+// (shared-cell digit cdIn). record: store per-instruction states and propagate
+// entries to callees.
+func (f *c05Flow) runFn(fn *ssa.Function, entryG uint64, cdIn int, record bool, contrib func(h *ssa.Function, g int), bind map[*ssa.Parameter]*ssa.Function) []c05Exit {
 	tr := f.trackedOf(fn)
+	cell := f.cellOf(fn, bind)
+	off := f.cellDigits()
+	L := f.L()
 	idx := func(v ssa.Value) int {
+		if cell != nil {
+			if c := c05CellLoad(v); c != nil && c == cell {
+				return 0
+			}
+		}
 		v = c05CanonBool(v)
 		for i, t := range tr {
 			if t == v {
-				return i
+				return off + i
 			}
 		}
 		return -1
 	}
-	var entry uint64
+	var entry c05Bits
 	for g := 0; g < f.G; g++ {
 		if entryG&(1<<uint(g)) != 0 {
-			entry |= 1 << uint(g*f.L())
+			l := 0
+			if off == 1 {
+				l = c05SetDigit(0, 0, cdIn)
+			}
+			entry.set(g*L + l)
 		}
 	}
-	var ff *FlagFlow
-	ff = &FlagFlow{Fn: fn, Must: false, Entry: entry,
-		Transfer: func(in ssa.Instruction, st uint64) uint64 {
-			if _, isDefer := in.(*ssa.Defer); isDefer && !ff.Replaying {
-				return st
+	each := func(st c05Bits, fn func(g, l int)) {
+		for s := 0; s < f.G*L; s++ {
+			if st.has(s) {
+				fn(s/L, s%L)
 			}
-			if record && ff.Replaying {
-				f.atRepl[in] |= st
-			}
-			var out uint64
-			k := -1
-			if v, ok := in.(ssa.Value); ok {
-				if _, isPhi := in.(*ssa.Phi); !isPhi { // a phi's truth is assigned on the incoming edge
+		}
+	}
+	mf := &c05MiniFlow{fn: fn, entry: entry}
+	mf.transfer = func(in ssa.Instruction, st c05Bits) c05Bits {
+		if _, isDefer := in.(*ssa.Defer); isDefer && !mf.replaying {
+			return st
+		}
+		var out c05Bits
+		k := -1
+		if v, ok := in.(ssa.Value); ok {
+			switch bo := in.(type) {
+			case *ssa.Phi, *ssa.Extract: // truth assigned on the incoming edge / by the call
+			case *ssa.BinOp:
+				if _, _, isCmp := f.resultCompare(bo); !isCmp && c05CellLoad(v) == nil {
+					k = idx(v)
+				}
+			default:
+				if c05CellLoad(v) == nil {
 					k = idx(v)
 				}
 			}
-			for s := 0; s < f.G*f.L(); s++ {
-				if st&(1<<uint(s)) == 0 {
-					continue
+		}
+		// a store to the shared cell
+		cellStore, cellD, cellSrc, cellNeg := false, 0, -1, false
+		if stI, ok := in.(*ssa.Store); ok && cell != nil && c05BoolCellOf(stI.Addr) == cell {
+			cellStore = true
+			v, pol := c05CondValue(stI.Val)
+			if kc, ok := v.(*ssa.Const); ok && kc.Value != nil && kc.Value.Kind() == constant.Bool {
+				if constant.BoolVal(kc.Value) == pol {
+					cellD = 1
+				} else {
+					cellD = 2
 				}
-				g, l := s/f.L(), s%f.L()
-				if k >= 0 {
-					l = c05SetDigit(l, k, 0)
+			} else if sk := idx(v); sk >= 0 {
+				cellSrc, cellNeg = sk, !pol
+			}
+		}
+		ci, isCall := in.(ssa.CallInstruction)
+		// the tracked value that receives the callee's boolean result
+		resK := func(h *ssa.Function) int {
+			call, ok := in.(*ssa.Call)
+			if !ok {
+				return -1
+			}
+			bi := c05BoolResult(h)
+			if bi < 0 {
+				return -1
+			}
+			if h.Signature.Results().Len() == 1 {
+				return idx(call)
+			}
+			for _, r := range refs(call) {
+				if ex, ok := r.(*ssa.Extract); ok && ex.Index == bi {
+					return idx(ex)
 				}
-				g2, handled := g, false
-				if f.Step != nil {
-					g2, handled = f.Step(in, g)
+			}
+			return -1
+		}
+		each(st, func(g, l int) {
+			if k >= off {
+				l = c05SetDigit(l, k, 0)
+			}
+			if cellStore {
+				d := cellD
+				if cellSrc >= 0 {
+					d = c05Digit(l, cellSrc)
+					if d != 0 && cellNeg {
+						d = 3 - d
+					}
 				}
-				ci, isCall := in.(ssa.CallInstruction)
-				if isCall && !handled {
-					h := staticCallee(ci)
-					// callbacks handed to synchronous higher-order library functions
-					// (sort.Slice, slices.SortFunc, ...) run during the call, in this state
-					if cbs := f.a.syncCallbacks(ci); len(cbs) > 0 {
-						acc := uint64(1) << uint(g2*f.L()+l)
-						for _, cb := range cbs {
+				l = c05SetDigit(l, 0, d)
+			}
+			g2, handled := g, false
+			if f.Step != nil {
+				g2, handled = f.Step(in, g)
+			}
+			if isCall && !handled {
+				h := staticCallee(ci)
+				if cbs := f.a.syncCallbacks(ci); len(cbs) > 0 {
+					out.set(g2*L + l)
+					for _, cb := range cbs {
+						if contrib != nil {
+							contrib(cb, g2)
+						}
+						for _, ex := range f.summary(cb, g2, 0, nil) {
+							out.set(ex.g*L + l)
+						}
+					}
+					return
+				}
+				var targets []*ssa.Function
+				sequential := false
+				if h != nil {
+					h = f.a.unwrapBound(h)
+					if f.funcs[h] {
+						targets = []*ssa.Function{h}
+					}
+				} else if ci.Common().IsInvoke() {
+					if m := f.a.seamTarget(ci); m != nil && f.funcs[m] {
+						targets = []*ssa.Function{m}
+					}
+				} else if tab := f.a.tableTargets(ci); len(tab) > 0 {
+					// a literal table of steps run in order: the whole sequence
+					targets, sequential = tab, true
+					for _, t := range tab {
+						if !f.funcs[t] {
+							targets = nil
+						}
+					}
+				} else if par, isPar := ci.Common().Value.(*ssa.Parameter); isPar && bind[par] != nil {
+					targets = []*ssa.Function{bind[par]} // the callback this call of the helper was given
+				} else {
+					for _, t := range f.a.dynTargets(ci) {
+						if f.funcs[t] {
+							targets = append(targets, t)
+						}
+					}
+				}
+				if goi, isGo := in.(*ssa.Go); isGo {
+					for _, t := range targets {
+						if contrib == nil {
+							break
+						}
+						ge, ok := f.Fresh, false
+						if f.GoEntry != nil && t == h {
+							ge, ok = f.GoEntry(goi, g)
+						}
+						if !ok {
+							ge = f.Fresh
+						}
+						contrib(t, ge)
+					}
+					out.set(g2*L + l)
+					return
+				}
+				if len(targets) > 0 && sequential {
+					cur := map[int]bool{g2: true}
+					for _, t := range targets {
+						next := map[int]bool{}
+						for gg := range cur {
 							if contrib != nil {
-								contrib(cb, g2)
+								contrib(t, gg)
 							}
-							for _, ex := range f.summary(cb, g2) {
-								acc |= 1 << uint(ex.g*f.L()+l)
+							for _, ex := range f.summary(t, gg, 0, nil) {
+								next[ex.g] = true
 							}
 						}
-						out |= acc
-						continue
+						cur = next
 					}
-					var targets []*ssa.Function
-					if h != nil {
-						if f.funcs[h] {
-							targets = []*ssa.Function{h}
-						}
-					} else if par, isPar := ci.Common().Value.(*ssa.Parameter); isPar && bind[par] != nil {
-						targets = []*ssa.Function{bind[par]} // the callback this call of the helper was given
-					} else {
-						for _, t := range f.a.dynTargets(ci) {
-							if f.funcs[t] {
-								targets = append(targets, t)
-							}
-						}
+					for gg := range cur {
+						out.set(gg*L + l)
 					}
-					if goi, isGo := in.(*ssa.Go); isGo {
-						for _, t := range targets {
-							if contrib == nil {
-								break
-							}
-							ge, ok := f.Fresh, false
-							if f.GoEntry != nil && t == h {
-								ge, ok = f.GoEntry(goi, g)
-							}
-							if !ok {
-								ge = f.Fresh
-							}
-							contrib(t, ge)
+					return
+				}
+				if len(targets) > 0 {
+					cmps := f.compares(fn, in)
+					for _, t := range targets {
+						if contrib != nil {
+							contrib(t, g2)
 						}
-						out |= 1 << uint(g2*f.L()+l)
-						continue
-					}
-					if len(targets) > 0 {
-						for _, t := range targets {
-							if contrib != nil {
-								contrib(t, g2)
+						b := f.a.callbackBinding(ci, t)
+						tcell := f.cellOf(t, b)
+						pass := cell != nil && tcell == cell
+						cd := 0
+						if pass {
+							cd = c05Digit(l, 0)
+						}
+						rk := -1
+						if len(targets) == 1 {
+							rk = resK(t)
+						}
+						for _, ex := range f.summary(t, g2, cd, b) {
+							l2 := l
+							if rk >= off {
+								l2 = c05SetDigit(l2, rk, ex.rt)
 							}
-							var exits []c05Exit
-							if b := f.a.callbackBinding(ci, t); len(b) > 0 {
-								exits = f.summaryBound(t, g2, b)
-							} else {
-								exits = f.summary(t, g2)
-							}
-							for _, ex := range exits {
-								l2 := l
-								if k >= 0 && ex.rt != 0 && len(targets) == 1 {
-									l2 = c05SetDigit(l2, k, ex.rt)
+							for _, cm := range cmps {
+								if ck := idx(cm.b); ck >= off {
+									d := 0
+									if len(targets) == 1 {
+										if val, ok := c05RcLookup(ex.rc, cm.idx); ok {
+											if (val == cm.k) == (cm.b.Op == token.EQL) {
+												d = 1
+											} else {
+												d = 2
+											}
+										}
+									}
+									l2 = c05SetDigit(l2, ck, d)
 								}
-								out |= 1 << uint(ex.g*f.L()+l2)
 							}
+							if pass {
+								l2 = c05SetDigit(l2, 0, ex.cd)
+							} else if cell != nil && f.touchesCell(t, b, cell) {
+								l2 = c05SetDigit(l2, 0, 0)
+							}
+							out.set(ex.g*L + l2)
 						}
+					}
+					return
+				}
+			}
+			out.set(g2*L + l)
+		})
+		return out
+	}
+	mf.edge = func(from, to *ssa.BasicBlock, st c05Bits) c05Bits {
+		// (1) the branch taken at the end of `from`
+		if len(from.Instrs) > 0 && len(from.Succs) == 2 && from.Succs[0] != from.Succs[1] {
+			if ifi, ok := from.Instrs[len(from.Instrs)-1].(*ssa.If); ok {
+				atoms := append([]c05Atom{{ifi.Cond, from.Succs[0] == to}}, c05ExpandCond(ifi.Cond, from.Succs[0] == to, 0)...)
+				done := map[ssa.Value]bool{}
+				for _, at := range atoms {
+					v, pol := c05CondValue(at.v)
+					if done[v] {
 						continue
 					}
-				}
-				out |= 1 << uint(g2*f.L()+l)
-			}
-			return out
-		},
-		EdgeTransfer: func(from, to *ssa.BasicBlock, st uint64) uint64 {
-			// (1) the branch taken at the end of `from`
-			if len(from.Instrs) > 0 && len(from.Succs) == 2 && from.Succs[0] != from.Succs[1] {
-				if ifi, ok := from.Instrs[len(from.Instrs)-1].(*ssa.If); ok {
-					atoms := append([]c05Atom{{ifi.Cond, from.Succs[0] == to}}, c05ExpandCond(ifi.Cond, from.Succs[0] == to, 0)...)
-					done := map[ssa.Value]bool{}
-					for _, at := range atoms {
-						v, pol := c05CondValue(at.v)
-						if done[v] {
-							continue
-						}
-						done[v] = true
-						k := idx(v)
-						if k < 0 {
-							continue
-						}
-						tv := at.tv == pol
-						want := 2
-						if tv {
-							want = 1
-						}
-						var out uint64
-						for s := 0; s < f.G*f.L(); s++ {
-							if st&(1<<uint(s)) == 0 {
-								continue
-							}
-							g, l := s/f.L(), s%f.L()
-							d := c05Digit(l, k)
-							if d != 0 && d != want {
-								continue // infeasible
-							}
-							l = c05SetDigit(l, k, want)
-							if f.Cond != nil {
-								g = f.Cond(ifi, v, tv, g)
-							}
-							out |= 1 << uint(g*f.L()+l)
-						}
-						st = out
-					}
-				}
-			}
-			// (2) assignments expressed by the edge: rule hook, then tracked phis of `to`
-			pi := -1
-			for i, p := range to.Preds {
-				if p == from {
-					pi = i
-				}
-			}
-			type asg struct {
-				k   int
-				src int // tracked index to copy from (-1: constant d)
-				neg bool
-				d   int
-			}
-			var asgs []asg
-			if pi >= 0 {
-				for _, in := range to.Instrs {
-					phi, ok := in.(*ssa.Phi)
-					if !ok {
-						break
-					}
-					if c05CanonBool(phi) != ssa.Value(phi) {
-						continue // an alias of another flag: no truth of its own
-					}
-					k := idx(phi)
-					if k < 0 || pi >= len(phi.Edges) {
+					done[v] = true
+					k := idx(v)
+					if k < 0 {
 						continue
 					}
-					ed, pol := c05CondValue(phi.Edges[pi])
-					a1 := asg{k: k, src: -1}
-					switch x := ed.(type) {
-					case *ssa.Const:
-						switch {
-						case x.IsNil():
-							a1.d = 2
-						case x.Value != nil && x.Value.Kind() == constant.Bool:
-							if constant.BoolVal(x.Value) == pol {
-								a1.d = 1
-							} else {
-								a1.d = 2
-							}
-						}
-					default:
-						if sk := idx(ed); sk >= 0 {
-							a1.src, a1.neg = sk, !pol
-						}
+					tv := at.tv == pol
+					want := 2
+					if tv {
+						want = 1
 					}
-					asgs = append(asgs, a1)
+					var out c05Bits
+					each(st, func(g, l int) {
+						d := c05Digit(l, k)
+						if d != 0 && d != want {
+							return // infeasible
+						}
+						l = c05SetDigit(l, k, want)
+						if f.Cond != nil {
+							g = f.Cond(ifi, v, tv, g)
+						}
+						out.set(g*L + l)
+					})
+					st = out
 				}
 			}
-			if f.EdgeG == nil && len(asgs) == 0 {
-				return st
+		}
+		// (2) assignments expressed by the edge: rule hook, then tracked phis of `to`
+		pi := -1
+		for i, p := range to.Preds {
+			if p == from {
+				pi = i
 			}
-			var out uint64
-			for s := 0; s < f.G*f.L(); s++ {
-				if st&(1<<uint(s)) == 0 {
+		}
+		type asg struct {
+			k   int
+			src int
+			neg bool
+			d   int
+		}
+		var asgs []asg
+		if pi >= 0 {
+			for _, in := range to.Instrs {
+				phi, ok := in.(*ssa.Phi)
+				if !ok {
+					break
+				}
+				if c05CanonBool(phi) != ssa.Value(phi) {
+					continue // an alias of another flag: no truth of its own
+				}
+				k := idx(phi)
+				if k < 0 || pi >= len(phi.Edges) {
 					continue
 				}
-				g, l := s/f.L(), s%f.L()
-				if f.EdgeG != nil {
-					g = f.EdgeG(from, to, g)
-				}
-				l2 := l
-				for _, a1 := range asgs {
-					d := a1.d
-					if a1.src >= 0 {
-						d = c05Digit(l, a1.src)
-						if d != 0 && a1.neg {
-							d = 3 - d
+				ed, pol := c05CondValue(phi.Edges[pi])
+				a1 := asg{k: k, src: -1}
+				switch x := ed.(type) {
+				case *ssa.Const:
+					switch {
+					case x.IsNil():
+						a1.d = 2
+					case x.Value != nil && x.Value.Kind() == constant.Bool:
+						if constant.BoolVal(x.Value) == pol {
+							a1.d = 1
+						} else {
+							a1.d = 2
 						}
 					}
-					l2 = c05SetDigit(l2, a1.k, d)
+				default:
+					if sk := idx(ed); sk >= 0 {
+						a1.src, a1.neg = sk, !pol
+					}
 				}
-				out |= 1 << uint(g*f.L()+l2)
+				asgs = append(asgs, a1)
 			}
-			return out
-		}}
-	ff.Run()
+		}
+		if f.EdgeG == nil && len(asgs) == 0 {
+			return st
+		}
+		var out c05Bits
+		each(st, func(g, l int) {
+			if f.EdgeG != nil {
+				g = f.EdgeG(from, to, g)
+			}
+			l2 := l
+			for _, a1 := range asgs {
+				d := a1.d
+				if a1.src >= 0 {
+					d = c05Digit(l, a1.src)
+					if d != 0 && a1.neg {
+						d = 3 - d
+					}
+				}
+				l2 = c05SetDigit(l2, a1.k, d)
+			}
+			out.set(g*L + l2)
+		})
+		return out
+	}
+	mf.run()
 	if record {
 		allInstrs(fn, func(in ssa.Instruction) {
-			if st, ok := ff.Before(in); ok {
-				f.at[in] |= st
+			if st, ok := mf.before[in]; ok {
+				cur := f.at[in]
+				cur.or(st)
+				f.at[in] = cur
 			}
 		})
 	}
 	var exits []c05Exit
 	seen := map[c05Exit]bool{}
-	ff.AtReturns(func(ret *ssa.Return, st uint64) {
-		for s := 0; s < f.G*f.L(); s++ {
-			if st&(1<<uint(s)) == 0 {
-				continue
+	bres := c05BoolResult(fn)
+	for _, b := range fn.Blocks {
+		if len(b.Instrs) == 0 {
+			continue
+		}
+		ret, ok := b.Instrs[len(b.Instrs)-1].(*ssa.Return)
+		if !ok {
+			continue
+		}
+		st, ok := mf.before[ret]
+		if !ok {
+			continue
+		}
+		st = mf.transfer(ret, st) // effects a rule attaches to the return itself
+		each(st, func(g, l int) {
+			cd := 0
+			if off == 1 {
+				cd = c05Digit(l, 0)
 			}
-			g, l := s/f.L(), s%f.L()
+			rc := ""
+			for i, rv := range ret.Results {
+				if kc, ok := c05ResolveLocal(rv).(*ssa.Const); ok && kc.Value != nil {
+					rc += fmt.Sprintf("%d=%s;", i, kc.Value.ExactString())
+				}
+			}
 			emit := func(g, rt int) {
 				if f.Exit != nil {
 					g = f.Exit(fn, g)
 				}
-				ex := c05Exit{g, rt}
+				ex := c05Exit{g, rt, cd, rc}
 				if !seen[ex] {
 					seen[ex] = true
 					exits = append(exits, ex)
 				}
 			}
-			if len(ret.Results) == 1 {
-				v, pol := c05CondValue(c05ResolveLocal(ret.Results[0]))
+			if bres >= 0 && bres < len(ret.Results) {
+				v, pol := c05CondValue(c05ResolveLocal(ret.Results[bres]))
 				if kc, ok := v.(*ssa.Const); ok && kc.Value != nil && kc.Value.Kind() == constant.Bool {
 					if constant.BoolVal(kc.Value) == pol {
 						emit(g, 1)
 					} else {
 						emit(g, 2)
 					}
-					continue
+					return
 				}
 				if k := idx(v); k >= 0 {
 					d := c05Digit(l, k)
@@ -570,35 +998,53 @@ func (f *c05Flow) runFn(fn *ssa.Function, entryG uint64, record bool, contrib fu
 						}
 						emit(g2, rt)
 					}
-					continue
+					return
 				}
 			}
 			emit(g, 0)
-		}
-	})
+		})
+	}
 	return exits
 }
 
-// summary: exits of h when entered in global state g.
-func (f *c05Flow) summary(h *ssa.Function, g int) []c05Exit {
-	if m := f.sum[h]; m != nil {
-		if ex, ok := m[g]; ok {
-			return ex
+// touchesCell: t (or a callback bound to it) stores to the cell.
+func (f *c05Flow) touchesCell(t *ssa.Function, bind map[*ssa.Parameter]*ssa.Function, cell *ssa.Alloc) bool {
+	hit := false
+	chk := func(fn *ssa.Function) {
+		allInstrs(fn, func(in ssa.Instruction) {
+			if st, ok := in.(*ssa.Store); ok && c05BoolCellOf(st.Addr) == cell {
+				hit = true
+			}
+		})
+	}
+	chk(t)
+	for _, cb := range bind {
+		chk(cb)
+	}
+	return hit
+}
+
+// summary: exits of h entered in global state g with shared-cell digit cd, its
+// callback parameters bound as in bind (a helper such as withLock is
+// summarised per binding, so that callers sharing it do not see each other's
+// callbacks).
+func (f *c05Flow) summary(h *ssa.Function, g, cd int, bind map[*ssa.Parameter]*ssa.Function) []c05Exit {
+	key := fmt.Sprintf("%p|%d|%d", h, g, cd)
+	for _, pa := range h.Params {
+		if b := bind[pa]; b != nil {
+			key += fmt.Sprintf("|%p", b)
 		}
 	}
-	if f.active[h] == nil {
-		f.active[h] = map[int]bool{}
+	if ex, ok := f.sum[key]; ok {
+		return ex
 	}
-	if f.active[h][g] || len(h.Blocks) == 0 {
-		return []c05Exit{{g, 0}} // recursion / no body: identity
+	if f.active[key] || len(h.Blocks) == 0 {
+		return []c05Exit{{g, 0, cd, ""}} // recursion / no body: identity
 	}
-	f.active[h][g] = true
-	ex := f.runFn(h, 1<<uint(g), false, nil, nil)
-	delete(f.active[h], g)
-	if f.sum[h] == nil {
-		f.sum[h] = map[int][]c05Exit{}
-	}
-	f.sum[h][g] = ex
+	f.active[key] = true
+	ex := f.runFn(h, 1<<uint(g), cd, false, nil, bind)
+	delete(f.active, key)
+	f.sum[key] = ex
 	return ex
 }
 
@@ -620,35 +1066,35 @@ func (f *c05Flow) Run(roots map[*ssa.Function]int) {
 		if f.NoDefaultRoots {
 			break
 		}
-		if f.a.syncCallbackOnly(fn) {
-			continue
+		if f.a.syncCallbackOnly(fn) || (f.a.dynCalled[fn] && !isExportedFunc(fn)) {
+			continue // runs in its caller's state
 		}
 		if isExportedFunc(fn) || f.a.addrTaken[fn] || fn.Name() == "init" {
 			add(fn, f.Fresh)
-		} else if fn.Parent() != nil && len(f.a.sites[fn]) == 0 && !f.a.syncCallbackOnly(fn) {
+		} else if fn.Parent() != nil && len(f.a.sites[fn]) == 0 {
 			add(fn, f.Fresh) // closure used as a value
 		}
 	}
 	for n := 0; len(work) > 0 && n < 10000; n++ {
 		fn := work[0]
 		work = work[1:]
-		// clear what was recorded for fn, then re-run with the full entry set
-		allInstrs(fn, func(in ssa.Instruction) { delete(f.at, in); delete(f.atRepl, in) })
-		f.runFn(fn, f.entry[fn], true, add, nil)
+		allInstrs(fn, func(in ssa.Instruction) { delete(f.at, in) })
+		f.runFn(fn, f.entry[fn], 0, true, add, nil)
 	}
 }
 
-// At: states before instruction in (0 if unreachable from the roots).
-func (f *c05Flow) At(in ssa.Instruction) uint64 { return f.at[in] }
+// At: states before instruction in (empty if unreachable from the roots).
+func (f *c05Flow) At(in ssa.Instruction) c05Bits { return f.at[in] }
 
 // Globals: the set of global states among st.
-func (f *c05Flow) Globals(st uint64) []int {
+func (f *c05Flow) Globals(st c05Bits) []int {
 	var out []int
 	seen := map[int]bool{}
-	for s := 0; s < f.G*f.L(); s++ {
-		if st&(1<<uint(s)) != 0 && !seen[s/f.L()] {
-			seen[s/f.L()] = true
-			out = append(out, s/f.L())
+	L := f.L()
+	for s := 0; s < f.G*L; s++ {
+		if st.has(s) && !seen[s/L] {
+			seen[s/L] = true
+			out = append(out, s/L)
 		}
 	}
 	return out
@@ -699,30 +1145,38 @@ func c05ResolveLocal(v ssa.Value) ssa.Value {
 	return v
 }
 
-// summaryBound: exits of h entered in g when its callback parameters are bound
-// to specific functions (one call site of a helper such as withLock): the
-// helper is summarised per binding, so that callers sharing it do not see each
-// other's callbacks.
-func (f *c05Flow) summaryBound(h *ssa.Function, g int, bind map[*ssa.Parameter]*ssa.Function) []c05Exit {
-	key := fmt.Sprintf("%p|%d", h, g)
-	for _, pa := range h.Params {
-		if b := bind[pa]; b != nil {
-			key += fmt.Sprintf("|%p", b)
+type c05Cmp struct {
+	b   *ssa.BinOp
+	idx int
+	k   string
+}
+
+// compares: the tracked comparisons in fn of a result of the call `in` with a constant.
+func (f *c05Flow) compares(fn *ssa.Function, in ssa.Instruction) []c05Cmp {
+	call, ok := in.(*ssa.Call)
+	if !ok {
+		return nil
+	}
+	var out []c05Cmp
+	for _, t := range f.trackedOf(fn) {
+		b, ok := t.(*ssa.BinOp)
+		if !ok {
+			continue
+		}
+		if c, i, ok := f.resultCompare(b); ok && c == call {
+			out = append(out, c05Cmp{b, i, c05CompareConst(b)})
 		}
 	}
-	if f.sumB == nil {
-		f.sumB = map[string][]c05Exit{}
-		f.activeB = map[string]bool{}
+	return out
+}
+
+// c05RcLookup: the constant returned as result #idx according to rc.
+func c05RcLookup(rc string, idx int) (string, bool) {
+	pre := fmt.Sprintf("%d=", idx)
+	for _, part := range strings.Split(rc, ";") {
+		if strings.HasPrefix(part, pre) {
+			return part[len(pre):], true
+		}
 	}
-	if ex, ok := f.sumB[key]; ok {
-		return ex
-	}
-	if f.activeB[key] || len(h.Blocks) == 0 {
-		return []c05Exit{{g, 0}}
-	}
-	f.activeB[key] = true
-	ex := f.runFn(h, 1<<uint(g), false, nil, bind)
-	delete(f.activeB, key)
-	f.sumB[key] = ex
-	return ex
+	return "", false
 }
